@@ -322,6 +322,9 @@ func C10(r *vf.Run) {
 					got    []byte
 				}
 				nh := 2 + g.Intn(3)
+				if g.Intn(8) == 0 {
+					nh = 10 + g.Intn(12)
+				}
 				var hs []*handle
 				usedBanks := map[uint32]bool{}
 				var desc []string
